@@ -40,6 +40,8 @@ FIXED = [
  ("C18", "fix: an array or map converted to text shows the values of nested Drops", "{{ pair | downcase | size }} (string filter applied to an array holding a Drop) depended on the Go representation: the Drop was spelled as its wrapper struct"),
  ("C01", "fix: property access on a map whose keys are not strings", "{{ m.foo }} / {{ m.size }} on a map[int]string panicked in reflect.Value.MapIndex"),
  ("C01", "fix: converting an enormous range to an array is an error", "{{ (1..9223372036854775807) | first }} (any array filter on a range of more than 2^31 elements) panicked with 'makeslice: cap out of range' or tried to allocate the whole range"),
+ ("C01", "fix: ExpandTagArg and RenderFile work from a block's renderer", "a block registered with RegisterBlock whose renderer calls ExpandTagArg on an argument containing {{ ... }} (or RenderFile on an existing file) panicked with a nil pointer dereference (render/context.go used the tag node, which is nil for blocks)"),
+ ("C19", "fix: ExpandTagArg recognises objects written with custom delimiters", "with Delims(\"<<\", \">>\", ...) the argument of an application tag such as {% xecho pre-<< x >>-post %} was returned unexpanded (only the literal {{ was looked for), unlike its default-delimiter spelling on a default engine"),
 ]
 KNOWN = [
  # (property, key, what)
